@@ -886,7 +886,7 @@ def check_C15(run, replay):
                 "canonical JSON of (game, argv, document text); action names with quotes and backslashes; every other -o run finds an older, longer result at the destination")
     run.assumptions = ["-t 0 with -r 0 (no limit at all) is excluded: it does not terminate by design",
                        "printed strategies with large denominators are evaluated by the library only (instrument validated by C01)"]
-    cases, rows = cli_check(run, "c15", 10 if run.tier == "quick" else 60)
+    cases, rows = cli_check(run, "c15", 30 if run.tier == "quick" else 100)
     cli_absorb(run, cases, rows, "cli")
     run.notes["exactly_evaluated_by_tlc"] = sum(1 for r in rows if r.get("exact"))
     run.notes["solution_predicted_by_tlc"] = sum(1 for r in rows if r.get("solution_exact"))
